@@ -21,9 +21,9 @@ PROPS = {
     'C02': {'gens': ['c02'], 'translate': ['G:guards'], 'configs': C(['default', 'int64'])},
     'C03': {'gens': ['c03'], 'translate': ['G:guards'], 'configs': C(['default', 'int64'])},
     'C04': {'gens': ['c04'], 'translate': ['G:guards'], 'configs': C(['default', 'int64'])},
-    'C05': {'gens': ['c05', 'c05k'], 'translate': ['K:field5x52', 'K:ct', 'K:field10x26', 'K:scalar4x64', 'K:scalar8x32', 'K:ct32', 'K:int128struct', 'F:group'], 'configs': C(['default', 'asm', 'int64', 'int128struct'], ALLCONF + ['o2']),
+    'C05': {'gens': ['c05', 'c05k'], 'translate': ['K:field5x52', 'K:ct', 'K:field10x26', 'K:scalar4x64', 'K:scalar8x32', 'K:ct32', 'K:int128struct', 'F:group', 'F:ellswift'], 'configs': C(['default', 'asm', 'int64', 'int128struct'], ALLCONF + ['o2']),
             'assumptions': ['x86-64 assembly, safegcd modinv and ecmult internals are tied by correspondence only']},
-    'C06': {'gens': ['c06'], 'translate': ['K:ct', 'K:ct32'], 'ct_valgrind': True, 'configs': C(['default'], ['default', 'verify']),
+    'C06': {'gens': ['c06'], 'translate': ['K:ct', 'K:ct32'], 'ct_valgrind': True, 'configs': C(['default', 'int64'], ['default', 'int64', 'verify']),
             'assumptions': ['compiler and CPU behaviour are outside the Lean model; valgrind observes the executed paths of the built binaries only']},
     'C07': {'gens': ['c07'], 'configs': C(['default', 'int64', 'memcheck'], ['default', 'asm', 'int128struct', 'int64', 'verify', 'memcheck']),
             'corpus_from': ['C10', 'C11'],
@@ -34,14 +34,15 @@ PROPS = {
     'C08': {'gens': ['c08'], 'translate': ['G:guards'], 'configs': C(['default', 'int64'])},
     'C09': {'gens': ['c09'], 'translate': ['G:guards'], 'configs': C(['default', 'int64'])},
     'C10': {'gens': ['c10'], 'translate': ['G:guards'], 'configs': C(['default', 'int64'])},
-    'C14': {'gens': ['c14'], 'translate': ['G:guards'], 'configs': C(['default', 'int64'], ['default', 'asm', 'int128struct', 'int64']),
-            'assumptions': ['VERIFY build excluded: secp256k1_ecdsa_adaptor_recover with a signature whose s = 0 reaches '
-                            'secp256k1_eckey_pubkey_serialize33 on the point at infinity (VERIFY_CHECK abort, eckey_impl.h:39); '
+    'C14': {'gens': ['c14'], 'translate': ['G:guards'], 'configs': C(['default', 'int64'], ['default', 'asm', 'int128struct', 'int64', 'verify']),
+            'exclude': {'verify': ['adaptor_recover']},
+            'assumptions': ['VERIFY build: the op adaptor_recover is not run (secp256k1_ecdsa_adaptor_recover with a signature whose s = 0 reaches '
+                            'secp256k1_eckey_pubkey_serialize33 on the point at infinity: VERIFY_CHECK abort, eckey_impl.h:39); '
                             'production builds return 0 and leave deckey32 untouched, which is what the model says']},
     'C15': {'gens': ['c15'], 'translate': ['G:guards'], 'configs': C(['default', 'int64'])},
     'C16': {'gens': ['c16'], 'translate': ['G:guards'], 'configs': C(['default', 'int64'])},
     'C17': {'gens': ['c17'], 'translate': ['G:guards'], 'configs': C(['default', 'int64'])},
-    'C18': {'gens': ['c18'], 'translate': ['G:guards'], 'configs': C(['default', 'int64'])},
+    'C18': {'gens': ['c18', 'c18k'], 'translate': ['G:guards', 'F:group', 'F:ellswift'], 'configs': C(['default', 'int64'])},
     'C20': {'gens': ['c20'], 'configs': C(['default', 'int64', 'tsan'], ['default', 'asm', 'int128struct', 'int64', 'verify', 'tsan']),
             'translate': ['statics', 'G:guards']},
     'C19': {'gens': ['c19'], 'translate': ['G:guards'], 'configs': C(['default', 'int64'])},
